@@ -62,7 +62,21 @@ FailsFor(c, t) ==
   IF FailScope = "all" \/ (FailScope = "ordinary" /\ ~c.sysuid /\ ~c.sysdev /\ c.sender = "ok")
     THEN Fails(t) ELSE {"none"}
 
-Facts == UNION {{[type |-> p[2], fail |-> x] @@ p[1] @@ e : e \in Extra(p[2]), x \in FailsFor(p[1], p[2])} : p \in Common \X Types}
+\* How the command travels in the SendBatch call.  "none": on its own.  "first" / "second":
+\* the same call also carries the sender's command to the same channel from a device of the
+\* other kind (system device <-> ordinary device), the mate; this command comes first / second.
+\* Both commands are decided under the same facts (one sender, one channel, one store); only
+\* `sysdev` differs.  SendBatch coalesces items that share one permission decision: the mate
+\* must not share this command's decision.
+Mixes == {"none", "first", "second"}
+
+\* every fact combination, the command travelling on its own
+Alone == UNION {{[type |-> p[2], fail |-> x, mix |-> "none"] @@ p[1] @@ e :
+                    e \in Extra(p[2]), x \in FailsFor(p[1], p[2])} : p \in Common \X Types}
+
+\* the facts of the mate's command
+Mate(x) == [x EXCEPT !.sysdev = ~x.sysdev,
+                     !.mix = CASE x.mix = "first" -> "second" [] x.mix = "second" -> "first" [] OTHER -> "none"]
 
 -------------------------------------------------------------------------------
 Chk(read, hit, reason) == [read |-> read, hit |-> hit, reason |-> reason]
@@ -111,16 +125,27 @@ Walk(x, cs) ==
 
 Decision(x) == Walk(x, Checks(x))
 
+\* A mate is enumerated where the device matters: the two commands must get different
+\* decisions (sender not a subscriber / denylisted / not allowlisted, group banned or absent,
+\* a failing read only the ordinary device consults, ...).  Elsewhere a leaked decision
+\* would not be observable.
+DeviceMatters(x) == Decision(x) # Decision(Mate(x))
+Facts == Alone \cup {[x EXCEPT !.mix = m] : x \in {y \in Alone : DeviceMatters(y)}, m \in {"first", "second"}}
+
 Init ==
   /\ f \in Facts
   /\ done = FALSE
   /\ ev = [a |-> "Init", cfg |-> f]
 
-\* Both paths return the one decision.
+\* Both paths return the one decision, whatever else travels in the same SendBatch call;
+\* with a mate in the call the mate's command gets the decision of its own device.
+Both(x)   == [send |-> Decision(x), batch |-> Decision(x)]
+Result(x) == IF x.mix = "none" THEN Both(x) ELSE Both(x) @@ [mate |-> Both(Mate(x))]
+
 Decide ==
   /\ ~done
   /\ done' = TRUE
-  /\ ev' = [a |-> "Decide", res |-> [send |-> Decision(f), batch |-> Decision(f)]]
+  /\ ev' = [a |-> "Decide", res |-> Result(f)]
   /\ UNCHANGED f
 
 Next == Decide
@@ -178,6 +203,18 @@ C36_Precedence ==
 C36_ErrorsOnlyWhenConsulted ==
   D.err => \E i \in 1..Len(Checks(f)) : Checks(f)[i].read = f.fail
 
-\* Both paths agree (by construction of Decide; evaluated on recorded traces).
-C36_PathsAgree == [][ev'.a = "Decide" => ev'.res.send = ev'.res.batch]_vars
+\* The company a command keeps in a batch is not a permission fact: the decision with a
+\* mate in the same SendBatch call is the decision of the command alone, and the mate's is
+\* that of the same facts on the other device kind (differing exactly by the device bypass).
+C36_CompanyIrrelevant ==
+  /\ D = Decision([f EXCEPT !.mix = "none"])
+  /\ Decision(Mate(f)) = Decision([f EXCEPT !.sysdev = ~f.sysdev, !.mix = "none"])
+  /\ f.sysuid => Decision(Mate(f)) = D
+
+\* Both paths agree, for the command and for its mate (by construction of Decide; evaluated
+\* on recorded traces).
+C36_PathsAgree ==
+  [][ev'.a = "Decide" =>
+       /\ ev'.res.send = ev'.res.batch
+       /\ "mate" \in DOMAIN ev'.res => ev'.res.mate.send = ev'.res.mate.batch]_vars
 ===============================================================================
